@@ -628,10 +628,12 @@ class Sym:
                         # statements before the `continue` run under c (their emissions must not be lost)
                         n0 = len(guard)
                         guard.append(c)
-                        ok = self._exec_loop_body(st.body[:-1], env.copy() if False else env, fr)
+                        ea = env.copy()
+                        ok = self._exec_loop_body(st.body[:-1], ea, fr)
                         del guard[n0:]
                         if not ok:
                             return False
+                        self._take_accs(env, ea)
                     # a raising branch contributes no guard: terms describe the non-raising executions (as for whole functions)
                     if st.orelse:
                         if body_kind == 'cont':
@@ -645,10 +647,12 @@ class Sym:
                     if else_kind == 'cont' and len(st.orelse) > 1:
                         n0 = len(guard)
                         guard.append(self._neg(c))
-                        ok = self._exec_loop_body(st.orelse[:-1], env, fr)
+                        eb = env.copy()
+                        ok = self._exec_loop_body(st.orelse[:-1], eb, fr)
                         del guard[n0:]
                         if not ok:
                             return False
+                        self._take_accs(env, eb)
                     if else_kind == 'cont':
                         guard.append(c)
                     if not self._exec_loop_body(st.body, env, fr):
@@ -693,6 +697,12 @@ class Sym:
                 return False
         return True
 
+    def _take_accs(self, env: _Env, branch: _Env):
+        """accumulator emissions of a branch that ends the iteration (`continue`) are kept; its other bindings are not"""
+        for k, v in self._all_vars(branch).items():
+            if v[0] == 'acc' and env.get(k) is not None and env.get(k)[0] == 'acc':
+                env.setdeep(k, v)
+
     def _all_vars(self, env: _Env) -> Dict[str, tuple]:
         out = {}
         chain = []
@@ -714,7 +724,7 @@ class Sym:
             return 'fall'
         last = stmts[-1]
         if isinstance(last, ast.Continue):
-            return 'cont' if all(not isinstance(s, (ast.If, ast.For, ast.While, ast.Try, ast.Return, ast.Break)) for s in stmts[:-1]) else 'other'
+            return 'cont' if all(not isinstance(n, (ast.While, ast.Try, ast.Return, ast.Break, ast.Continue)) for s in stmts[:-1] for n in ast.walk(s)) else 'other'
         if isinstance(last, ast.Raise):
             return 'bottom'
         if any(isinstance(n, (ast.Continue, ast.Break, ast.Return)) for s in stmts for n in ast.walk(s)):
@@ -1277,6 +1287,55 @@ class Sym:
 # ====================================================================== substitution / normalisation
 # Terms are DAGs (shared tuples).  Every pass below is memoised by object identity so that cost is linear in the
 # number of distinct nodes, not in the size of the unfolded tree.
+
+def assume(t, decide):
+    """The term under an assumption: decide(test term) -> True / False / None (unknown) is applied to the test of every
+    `cond`, to the operands of `or` / `and`, and to `not`; result is normalised."""
+    memo = {}
+
+    def truth(c):
+        if isinstance(c, tuple) and c and c[0] == 'not':
+            v = truth(c[1])
+            return None if v is None else (not v)
+        return decide(c)
+
+    def go(x):
+        if not isinstance(x, tuple):
+            return x
+        k = id(x)
+        if k in memo:
+            return memo[k][1]
+        if x and x[0] == 'cond':
+            v = truth(x[1])
+            r = go(x[2]) if v is True else go(x[3]) if v is False else tuple(go(y) for y in x)
+        elif x and x[0] == 'or' and isinstance(x[1], tuple):
+            parts = []
+            r = None
+            for p_ in x[1]:
+                v = truth(p_)
+                if v is True:
+                    parts.append(go(p_))
+                    break
+                if v is False and p_ is not x[1][-1]:
+                    continue
+                parts.append(go(p_))
+            r = parts[0] if len(parts) == 1 else ('or', tuple(parts))
+        else:
+            r = tuple(go(y) for y in x)
+        memo[k] = (x, r)
+        return r
+
+    return normalise(go(t))
+
+
+def cond_leaves(t):
+    """Alternatives of a value term: leaves of nested cond / or nodes."""
+    if isinstance(t, tuple) and t and t[0] == 'cond':
+        return cond_leaves(t[2]) + cond_leaves(t[3])
+    if isinstance(t, tuple) and t and t[0] == 'or' and isinstance(t[1], tuple):
+        return [l for p_ in t[1] for l in cond_leaves(p_)]
+    return [t]
+
 
 def substitute(t, mapping: Dict[tuple, tuple]):
     memo = {}
